@@ -171,7 +171,10 @@ func verifH_C17_schema_nested() {
 	case 2:
 		src.AllOf = openapi2.SchemaRefs{child("a0."), child("a1.")}
 	case 3:
-		switch verifChoose("ap", 4) {
+		switch verifChoose("ap", 5) {
+		case 4:
+			// a map of arrays of referenced objects
+			src.AdditionalProperties.Schema = &openapi3.SchemaRef{Value: &openapi3.Schema{Type: &openapi3.Types{"array"}, Items: &openapi3.SchemaRef{Ref: ref2}}}
 		case 3:
 			// a map of maps: the reference sits at the second additionalProperties level
 			inner := &openapi3.Schema{Type: &openapi3.Types{"object"}}
@@ -220,6 +223,10 @@ func verifH_C17_schema_nested() {
 			verifAssert(ap.Has != nil && *ap.Has == *src.AdditionalProperties.Has, "C17 nested: additionalProperties boolean is preserved")
 		} else if src.AdditionalProperties.Schema.Ref != "" {
 			verifAssert(ap.Schema != nil && ap.Schema.Ref == ref3, "C17 nested: additionalProperties reference is rewritten to its v3 location")
+		} else if it := src.AdditionalProperties.Schema.Value.Items; it != nil {
+			verifKnown("C17-ref-below-additionalProperties-not-rewritten", true)
+			verifAssert(ap.Schema != nil && ap.Schema.Value != nil && ap.Schema.Value.Items != nil && ap.Schema.Value.Items.Ref == ref3, "C17 nested: a reference under additionalProperties.items is rewritten to its v3 location")
+			verifKnown("C17-ref-below-additionalProperties-not-rewritten", false)
 		} else if in2 := src.AdditionalProperties.Schema.Value.AdditionalProperties.Schema; in2 != nil {
 			verifAssert(ap.Schema != nil && ap.Schema.Value != nil && ap.Schema.Value.AdditionalProperties.Schema != nil && ap.Schema.Value.AdditionalProperties.Schema.Ref == ref3, "C17 nested: a reference two additionalProperties levels down is rewritten to its v3 location")
 		} else {
